@@ -152,6 +152,22 @@ claim('C05',
       'Trusted: python ast, the Dezyne JSON schema table (ast field <-> JSON key, class <-> <class> tag) embedded in '
       'rules/c05.py - it is the external format and the public field names, not a copy of the code.')
 
+claim('C01',
+      'generator template abstraction: abstract interpretation of the string-building emitters (inlining package '
+      'functions, properties and __str__; text-layer combinators as layout), scenario evaluation over port kind x '
+      'event direction x role, C++ token view with holes, statement patterns compared against the wiring table',
+      'Static rule set on the generator\'s parametric templates, i.e. for all models at once: the link statements '
+      'emitted per port kind and event direction equal the wiring table (each link exactly once, none for STS ports, '
+      'client ports of a multi-client port get claim / release / pass-through links); in every link all event '
+      'positions are the same event-name hole (no literal), `.in.`/`.out.` agree with the loop direction, all port '
+      'references are the loop\'s port and the two sides are different objects; a closure link contains exactly one '
+      'forwarded call; lambda parameters and forwarded arguments range over the same unfiltered ordered formals with '
+      '`&` exactly for non-IN formals and the reply returned at every closure level; the constructor is declared in '
+      'the header and defined in the source. Nothing is claimed about the compiled program (no Dezyne runtime, no '
+      'execution): the rules fix the wiring shape of the emitted C++ for every model.',
+      'Trusted: python ast, the E4 evaluator and its native models of TextBlock/chunk/cond_chunk/flatten (layout '
+      'only, justified by C17/C18), the C++ lexer and statement patterns, C03.sides for provides/requires provenance.')
+
 _pending = 'check not built yet in this round (design in DESIGN.md section 3); will be claimed when its rules run clean'
 for _n in range(1, 21):
     _p = f'C{_n:02d}'
